@@ -127,6 +127,24 @@ def model_of_trainer(ot):
     return m, ids
 
 
+N_PREFIXED = [0]
+n_counted_only = [0]
+n_counted_by_generator = [0]
+
+
+def train_maybe_prefixed(i, pws, ngram, asz, cov):
+    """every second training list is handed to the trainer in `uniq -c` form (--prefixcount): every pass over the file must
+    then expand '  3 password' into three passwords, the third (level counting) pass included"""
+    if i % 2 == 1 and not any(c.isspace() for p in pws for c in p) and all(pws):
+        cnt = {}
+        for p in pws:
+            cnt[p] = cnt.get(p, 0) + 1
+        raw = ''.join('%7d %s\n' % (n, p) for p, n in cnt.items()).encode('utf-8')
+        N_PREFIXED[0] += 1
+        return train.train(raw=raw, prefixcount=True, ngram=ngram, alphabet_size=asz, coverage=cov)
+    return train.train(pws, ngram=ngram, alphabet_size=asz, coverage=cov)
+
+
 def trainings(tier, rng):
     combos = []
     for name, pws in TRAIN_LISTS.items():
@@ -231,8 +249,8 @@ def main(pid, tier, seed):
             traces.append({'tid': tid, 'kind': 'keyspace', 'm': mm,
                            'rows': [[lv, int(ks[lv]), -1, 1] for lv in range(1, maxlv + 1)]})
             meta[tid] = {'kind': 'calc_omen_keyspace on a model-checked model', 'model': m}
-        for name, pws, ngram, asz, cov in trainings(tier, rng):
-            res = train.train(pws, ngram=ngram, alphabet_size=asz, coverage=cov)
+        for ti_, (name, pws, ngram, asz, cov) in enumerate(trainings(tier, rng)):
+            res = train_maybe_prefixed(ti_, pws, ngram, asz, cov)
             if not res['ok']:
                 continue
             od = os.path.join(res['dir'], 'Omen')
@@ -248,17 +266,27 @@ def main(pid, tier, seed):
             rows = []
             opt = omen.new_optimizer()
             for lv in sorted(ksp):
-                if ksp[lv] > (1500 if tier == 'quick' else 20000) or lv > 8:
-                    continue
+                if ksp[lv] >= 10 ** 9 or lv > 10:
+                    continue            # (TLC's 32-bit integers)
                 if g is None:
                     strings, done, err = [], False, 'load_rules failed'
+                elif ksp[lv] > (1500 if tier == 'quick' else 20000) or lv > 8:
+                    strings, done, err = [], False, 'cap'     # counted by the specification only (Omen.tla: KeyspaceDP), not drained
+                    n_counted_only[0] += 1
                 else:
                     strings, done, err = omen.drain(g, lv, opt, cap=60000)
                 # -1 = not counted (cap reached); -2 = the generator raised / the ruleset did not load (never equals a keyspace)
                 gen = len(set(strings)) if (done and err is None) else (-1 if err == 'cap' else -2)
                 pf = 1
                 if ksp[lv] > 0:
-                    want = (cnt.get(lv, 0) / n_valid) / ksp[lv]
+                    # "the fraction of training passwords at that level": counted here as the training passwords the real generator
+                    # emits at this level (when the level was drained completely), not as what the trainer wrote next to it
+                    at_level = cnt.get(lv, 0)
+                    if gen >= 0:
+                        sset = set(strings)
+                        at_level = sum(1 for p_ in pws if p_ in sset)
+                        n_counted_by_generator[0] += 1
+                    want = (at_level / n_valid) / ksp[lv]
                     got = prob.get(lv)
                     pf = 1 if (got is not None and abs(got - want) <= 1e-12 * max(abs(want), 1e-300)) or (got is None and want == 0 and False) else 0
                     if got is None:
@@ -311,8 +339,8 @@ def main(pid, tier, seed):
             tid += 1
             traces.append({'tid': tid, 'kind': 'agree', 'm': model, 'cands': cl, 'lmax': lmax, 'train': [], 'pwcounts': []})
             meta[tid] = {'kind': 'model-checked model', 'model': m, 'candidates': len(cl), 'generated_strings_seen': len(where)}
-        for name, pws, ngram, asz, cov in trainings(tier, rng):
-            res = train.train(pws, ngram=ngram, alphabet_size=asz, coverage=cov)
+        for ti_, (name, pws, ngram, asz, cov) in enumerate(trainings(tier, rng)):
+            res = train_maybe_prefixed(ti_, pws, ngram, asz, cov)
             if not res['ok']:
                 continue
             ot = res['captured']['omen_trainer']
@@ -415,7 +443,7 @@ def main(pid, tier, seed):
     nontriv = [t for t in traces if (t['kind'] == 'level' and len(t['ev']) > 1) or t['kind'] in ('agree', 'keyspace')]
     distinct = len({json.dumps({k: v for k, v in t.items() if k != 'tid'}, sort_keys=True) for t in nontriv})
     s = nontriv[min(5, len(nontriv) - 1)] if nontriv else traces[0]
-    cov = {'states': mc['states'], 'transitions': mc['transitions'],
+    cov = {'trainings_fed_in_prefixcount_form': N_PREFIXED[0], 'levels_too_large_to_drain_whose_keyspace_the_specification_still_counted': n_counted_only[0], 'levels_whose_training_passwords_were_counted_in_the_generator_output': n_counted_by_generator[0], 'states': mc['states'], 'transitions': mc['transitions'],
            'traces_validated_against_impl': len(traces),
            'samples': [{'meta': {k: v for k, v in meta[s['tid']].items() if k != 'model'}, 'trace': core.short(s, 700)}],
            'model_checking': mc, 'evaluations': len(traces), 'distinct_nontrivial': distinct,
